@@ -25,6 +25,24 @@ def rows? (v : Val) : Option (List ((Nat × Nat) × Rat)) := do
   let l ← v.list?
   l.mapM row?
 
+/-- a row whose score may be the atom `nan` -/
+def rowOpt? (v : Val) : Option ((Nat × Nat) × Option Rat) :=
+  match v with
+  | .list [a, b, .atom "nan"] => do
+    let a ← a.nat?
+    let b ← b.nat?
+    pure ((a, b), none)
+  | .list [a, b, s] => do
+    let a ← a.nat?
+    let b ← b.nat?
+    let s ← rat? s
+    pure ((a, b), some s)
+  | _ => none
+
+def rowsOpt? (v : Val) : Option (List ((Nat × Nat) × Option Rat)) := do
+  let l ← v.list?
+  l.mapM rowOpt?
+
 def batches? (v : Val) : Option (List (List ((Nat × Nat) × Rat))) := do
   let l ← v.list?
   l.mapM rows?
@@ -41,9 +59,12 @@ def flags? (v : Val) : Option (List (Bool × Nat)) := do
 
 def agg := aggregate (σ := Rat) pairLe ratOps
 
+def ofRowsOpt (t : List ((Nat × Nat) × Option Rat)) : Val :=
+  .list (t.map fun r => .list [.int r.1.1, .int r.1.2, match r.2 with | some x => ofRat x | none => .atom "nan"])
+
 /-- C08 operations.
 model:  `stream B sub flags` (flags[i] = 1 iff data line i has the header's field count) → [[ids of each batch], tail, invalid, lines]
-        `agg rows` → grouped table;  `disk isConst tail batches` → disk content after every batch;  `final table` → sorted table
+        `agg rows` → grouped table;  `aggskip rows` (scores may be `nan`) → grouped table with NaN scores skipped;  `disk isConst tail batches` → disk content after every batch;  `final table` → sorted table
 spec:   `streamspec B sub flags` (the chunking specification);  `prefixaggs batches` (aggregate of every prefix);
         `finalok agg table` (same rows, ascending score); `finalokrows rows table` = `finalok (agg rows) table` -/
 def drv : Handler := fun st args => match args with
@@ -59,6 +80,10 @@ def drv : Handler := fun st args => match args with
     match rows? rows with
     | some rows => (st, ofRows (agg rows))
     | none => (st, bad "C08-agg")
+  | [.atom "aggskip", rows] =>
+    match rowsOpt? rows with
+    | some rows => (st, ofRowsOpt (aggregateSkip (σ := Rat) pairLe ratOps rows))
+    | none => (st, bad "C08-aggskip")
   | [.atom "disk", isConst, tail, bs] =>
     match isConst.nat?, tail.nat?, batches? bs with
     | some c, some t, some bs =>
